@@ -1116,6 +1116,24 @@ def _argspace_exec(args):
                             r = r >> alias()
                         r = r >> slice_head(n, offset=k)
                     rec["out"] = (r >> export(pdt.Polars()))["rid"].to_list()
+                elif c["verb"] == "arrange":
+                    rows = [tuple(x) for x in c["rows"]]
+                    key = ("o", tuple(rows))
+                    name = "o" + "".join(("n" if a == 99 else str(a)) + ("n" if b == 99 else str(b)) for a, b in rows) + "x"
+                    if key not in frames:
+                        frames[key] = pl.DataFrame({"rid": list(range(1, len(rows) + 1)), "k1": [None if a == 99 else a for a, _ in rows],
+                                                    "k2": [None if b == 99 else b for _, b in rows]},
+                                                   schema={"rid": pl.Int64, "k1": pl.Int64, "k2": pl.Int64})
+                        frames[key].write_database(name, eng, if_table_exists="replace")
+                    t = tbl(bk, key, name)
+                    o1 = t.k1.descending() if c["d1"] else t.k1
+                    o1 = o1.nulls_first() if c["n1"] == "first" else o1.nulls_last()
+                    o2 = t.k2.descending() if c["d2"] else t.k2
+                    o2 = o2.nulls_first() if c["n2"] == "first" else o2.nulls_last()
+                    r = t >> arrange(o1, o2)
+                    if c["take"]:
+                        r = r >> slice_head(c["take"])
+                    rec["out"] = (r >> export(pdt.Polars()))["rid"].to_list()
                 elif c["verb"] == "agg":
                     from fractions import Fraction
                     rows = [tuple(x) for x in c["rows"]]
@@ -1196,7 +1214,7 @@ def phase_argspace(ctx, phase):
     ucols = phase.get("ucols", ["a", "b", "c"])
     jkeys, jmax = phase.get("jkeys", [0, 1, 2]), phase.get("jmax", 3)
     wmax, amax = phase.get("wmax", 4), phase.get("amax", 3)
-    verbs = phase.get("verbs", ["slices", "union", "joinrows", "win", "agg"])
+    verbs = phase.get("verbs", ["slices", "union", "joinrows", "win", "agg", "arrange"])
     d = tlc.prepare(f"{ctx.prop}-argspace-{os.getpid()}", ctx.seed)
     common = (f"NsDef == {{{', '.join(map(str, ns))}}}\nKsDef == {{{', '.join(map(str, ks))}}}\nSizesDef == {{{', '.join(map(str, sizes))}}}\n"
               f"UColsDef == {tlc.tla_lit(ucols)}\nJKeysDef == {{{', '.join(map(str, jkeys))}}}\n"
@@ -1239,17 +1257,21 @@ def phase_argspace(ctx, phase):
         counts.setdefault(c["verb"], {}).setdefault(v["verdict"], 0)
         counts[c["verb"]][v["verdict"]] += 1
         if v["verdict"] != "ok":
-            clause = "rows" if v["verdict"] in ("rows", "row-count", "values", "groups") else ("names" if v["verdict"] == "names" else "export-error" if v["verdict"] == "unexpected-error" else "errclass")
+            clause = "order" if v["verdict"] == "order" else "rows" if v["verdict"] in ("rows", "row-count", "values", "groups") else ("names" if v["verdict"] == "names" else "export-error" if v["verdict"] == "unexpected-error" else "errclass")
             what = (f"{c['size']} rows, arrange(rid) >> " + (" >> alias() >> " if c["alias"] else " >> ").join(f"slice_head({n}, offset={k})" for n, k in c["args"])
                     if c["verb"] == "slices" else f"keys {c['l']} join keys {c['r']} (0 = null) how={c['how']} on={c['on']}" if c["verb"] == "joinrows"
                     else f"(g, v) rows {c['rows']} (99 = null): {c['op']} {c['mode']}" if c["verb"] == "agg"
+                    else (f"(k1, k2) rows {c['rows']} (99 = null): arrange(k1{'.descending()' if c['d1'] else ''}.nulls_{c['n1']}(), "
+                          f"k2{'.descending()' if c['d2'] else ''}.nulls_{c['n2']}()){' >> slice_head(2)' if c['take'] else ''}") if c["verb"] == "arrange"
                     else f"k={c['keys']} (99 = null){', v null in row 2' if c['vnull'] else ''}: {c['fn']}(arrange=k{'.descending()' if c['desc'] else ''}.nulls_{c['nl']}(){', partition_by=rid%2' if c['part'] else ''})" if c["verb"] == "win"
                     else f"select{c['l']} >> union(select{c['r']}, distinct={c['distinct']})")
             ctx.failures.append(dict(clause=clause, backend=r["backend"], step=0, tainted=False, src=["argspace"], srcidx=0, exc=r["err"] or None,
                                      detail=f"{c['verb']}: {v['verdict']}: {what} -> {r['names']} {r['out']} {r['err']} {r.get('msg', '')}",
-                                     moves=[dict(v={"slices": "slice_head", "joinrows": "join", "win": "mutate", "agg": "summarize"}.get(c["verb"], "union"), i=1)], heap_obs=[], beh=r))
-    ctx.extra["arg_space"] = dict(configurations=len(cfgs), executions=len(recs), verdicts=counts, canary_rejected=bool(canary),
-                                  universe=dict(n=ns, offset=ks, table_sizes=sizes, union_columns=ucols))
+                                     moves=[dict(v={"slices": "slice_head", "joinrows": "join", "win": "mutate", "agg": "summarize", "arrange": "arrange"}.get(c["verb"], "union"), i=1)], heap_obs=[], beh=r))
+    uni = dict(slices=dict(n=ns, offset=ks, table_sizes=sizes), union=dict(columns=ucols), joinrows=dict(keys=jkeys, max_rows=jmax),
+               win=dict(max_rows=wmax), agg=dict(max_rows=amax), arrange=dict(max_rows=amax))
+    ctx.extra.setdefault("arg_space", {})["+".join(verbs)] = dict(configurations=len(cfgs), executions=len(recs), verdicts=counts, canary_rejected=bool(canary),
+                                                                  universe={v: uni[v] for v in verbs})
     ctx.behaviours += len(recs)
     ctx.replay_stats["steps_new"] = ctx.replay_stats.get("steps_new", 0) + len(recs)
     ctx.replay_stats["nontrivial"] = ctx.replay_stats.get("nontrivial", 0) + len(recs)
